@@ -3,10 +3,10 @@
 (* M8 (greenlet forests) for C15.                                           *)
 (* A controller (the thread's main greenlet, "main") drives greenlets       *)
 (* g \in G.  Every greenlet body is an interpreter: an entry function       *)
-(* that calls a recursive loop; each loop frame suspends by switching to    *)
-(* main and obeys the command it is resumed with.  So the own segment of a  *)
-(* started greenlet is   entry, loop x (depth + 1)   and its switch point   *)
-(* is the innermost loop frame.                                            *)
+(* (the depth-0 interpreter) that calls a recursive loop for deeper levels;  *)
+(* each level suspends by switching to main and obeys the command it is     *)
+(* resumed with.  So the own segment of a started greenlet is               *)
+(*   entry, loop x depth   and its switch point is the innermost of them.   *)
 (*                                                                         *)
 (* State: parent[g] \in G \cup {"main"}, st[g] \in {"unstarted",            *)
 (* "suspended", "dead"}, depth[g].  An observation names who calls          *)
@@ -32,7 +32,7 @@ Init == /\ parent \in {p \in [G -> Nodes] : \A g \in G : p[g] # g /\ Reaches(p, 
         /\ acts = <<>> /\ steps = 0
 
 Alive(x) == IF x = "main" THEN TRUE ELSE st[x] = "suspended"
-SegLen(g) == IF st[g] = "suspended" THEN depth[g] + 2 ELSE 0     \* entry + (depth + 1) loop frames
+SegLen(g) == IF st[g] = "suspended" THEN depth[g] + 1 ELSE 0     \* entry (the depth-0 interpreter) + depth loop frames
 IsAncestor(a, g) == \E n \in 1..Cardinality(G) :
                       LET RECURSIVE Up(_, _)
                           Up(x, k) == IF k = 0 THEN x ELSE IF x = "main" THEN "main" ELSE Up(parent[x], k - 1)
